@@ -47,6 +47,7 @@ fn judge(o: &mut Out, what: &str, vs: &str, cap: usize, got: &Result<Result<Vec<
 /// run f on a canary-filled buffer of exactly cap bytes flush against a guard page;
 /// returns (result, buffer afterwards) and checks the bytes beyond the output
 fn on_slice(o: &mut Out, what: &str, vs: &str, cap: usize, at_end: bool, f: impl FnOnce(&mut [u8]) -> Result<usize, postcard::Error>) -> (Result<Result<Vec<u8>, postcard::Error>, ()>, Vec<u8>) {
+    o.inflight(&format!("{} of {} into a {}-byte slice {}", what, vs, cap, if at_end { "flush against the guard page" } else { "starting at the guard page" }));
     let mut g = GuardBuf::new(cap, at_end);
     g.as_mut().fill(CANARY);
     g.fill_slack(0xA5);
@@ -213,6 +214,29 @@ pub fn run(a: &Args) {
             o.bump("block_boundary_values");
         }
     }
+    // the same around block writes (str / bytes payloads handed to try_extend)
+    for (i, (_t, v)) in gen::block_write_boundary_vals(&mut r, a.thorough).into_iter().enumerate() {
+        let plain = postcard::to_allocvec(&v).unwrap();
+        let mut cobs = refimpl::cobs_encode(&plain);
+        cobs.push(0);
+        let vs = v.to_string();
+        for cap in plain.len() - 3..=cobs.len() + 2 {
+            let (got, whole) = on_slice(&mut o, "to_slice_cobs", &vs, cap, cap % 2 == 0, |b| postcard::to_slice_cobs(&v, b).map(|s| s.len()));
+            judge(&mut o, "to_slice_cobs", &vs, cap, &got, &cobs, false);
+            if i % 7 == 0 && (cap == cobs.len() || cap + 1 == cobs.len()) {
+                o.case("toslice_cobs", &[&vs, &cap.to_string()], &model_slice(&got, &whole));
+            }
+            let (got, _) = on_slice(&mut o, "to_slice", &vs, cap, cap % 2 == 1, |b| postcard::to_slice(&v, b).map(|s| s.len()));
+            judge(&mut o, "to_slice", &vs, cap, &got, &plain, false);
+            if let Some(got) = hcap!(cap, B => guarded(|| postcard::to_vec_cobs::<Val, B>(&v).map(|h| h.to_vec()))) {
+                judge(&mut o, "to_vec_cobs", &vs, cap, &got, &cobs, false);
+            }
+            if let Some(got) = hcap!(cap, B => guarded(|| postcard::to_vec::<Val, B>(&v).map(|h| h.to_vec()))) {
+                judge(&mut o, "to_vec", &vs, cap, &got, &plain, false);
+            }
+        }
+        o.bump("block_write_boundary_values");
+    }
     // collect_str: running out of room in the text pass is a CollectStrError
     for _ in 0..(if a.thorough { 300 } else { 40 }) {
         let pieces: Vec<Vec<u8>> = (0..r.range(1, 3)).map(|_| gen::gen_string(&mut r, 10)).collect();
@@ -220,5 +244,5 @@ pub fn run(a: &Args) {
         check_value(&mut o, &mut r, &v, &crc_algs, true);
     }
     let _ = Ty::Unit;
-    o.finish(&a.summary, "generated values whose plain encoding is at most 60 bytes (plus byte tuples around the 254-byte COBS boundary and collect_str values) x every capacity 0..=len+2 x {caller slice flush against a PROT_NONE page (alternating sides), heapless Vec<B> for every instantiated B} x {plain, COBS, CRC of a catalogue algorithm}; growable/Extend/size counter once per value; distinct = distinct value, non-trivial = non-empty encoding");
+    o.finish(&a.summary, "generated values whose plain encoding is at most 60 bytes (plus byte tuples and str/bytes block writes around the 254-byte COBS boundaries and collect_str values) x every capacity 0..=len+2 x {caller slice flush against a PROT_NONE page (alternating sides), heapless Vec<B> for every instantiated B} x {plain, COBS, CRC of a catalogue algorithm}; growable/Extend/size counter once per value; distinct = distinct value, non-trivial = non-empty encoding");
 }
